@@ -1335,16 +1335,21 @@ class TexArgs(list):
             i = max(0, len(self) + i)
         i = min(i, len(self))
 
-        # position in the proxy `.all`: right before the item now at index i
-        j = len(self.all)
-        for k, item in enumerate(self.all):
-            if i < len(self) and item is self[i]:
-                j = k
-                break
-        self.all.insert(j, arg)
-
+        self.all.insert(self.__all_index(i), arg)
         if isinstance(arg, (TexGroup, TexCmd)):
             super().insert(i, arg)
+
+    def __all_index(self, i):
+        """Index in the proxy `.all` of the i-th argument, or the end of
+        `.all` if there is no such argument. Arguments are matched by position
+        so that equal or even identical groups cannot be confused."""
+        count = 0
+        for j, item in enumerate(self.all):
+            if isinstance(item, (TexGroup, TexCmd)):
+                if count == i:
+                    return j
+                count += 1
+        return len(self.all)
 
     def remove(self, item):
         """Remove either an unparsed argument string or an argument object.
@@ -1375,8 +1380,13 @@ class TexArgs(list):
         0
         """
         item = self.__coerce(item)
-        self.all.remove(item)
-        super().remove(item)
+        if isinstance(item, (TexGroup, TexCmd)):
+            i = self.index(item)
+            del self.all[self.__all_index(i)]
+            super().pop(i)
+        else:
+            self.all.remove(item)
+            super().remove(item)
 
     def pop(self, i=-1):
         """Pop argument object at provided index.
@@ -1391,11 +1401,10 @@ class TexArgs(list):
         >>> arguments[0]
         BraceGroup('arg0')
         """
+        j = self.__all_index(i if i >= 0 else len(self) + i)
         item = super().pop(i)
-        for j, other in enumerate(self.all):
-            if other is item:
-                break
-        return self.all.pop(j)
+        del self.all[j]
+        return item
 
     def reverse(self):
         r"""Reverse both the list and the proxy `.all`.
